@@ -1,6 +1,7 @@
 //! Shared generators (proptest strategies).
 pub mod nesting;
 pub mod flow_frag;
+pub mod doc_types;
 pub mod soup;
 pub mod util;
 pub mod paths;
